@@ -51,10 +51,17 @@ CHECKS = {
         "Crank-Nicolson as implemented is the trapezoidal rule. On every run, for random compartments/branches/cells/networks and all "
         "7 (solver, backend) pairs the implementation's voltages are converted to exact rationals and the Lean driver computes their "
         "relative row residual against the physics Spec (<= 1e-9) and compares them with the exact rational solution of the "
-        "code-shaped model; refusals must be legitimate.",
+        "code-shaped model; refusals must be legitimate. The custom solver itself is modelled as the code is written "
+        "(Model.SolveJaxley: padded slots of JaxleySolveIndexer, level schedule, tridiax Thomas rows, branch-point steps): proved for "
+        "all inputs - the triangulation of a slot yields the Schur pivots of its path, identity padding rows are irrelevant, "
+        "triangulation + back substitution solves the slot's tridiagonal system, every branch-point step is a solution-set preserving "
+        "row operation; per case the model runs on the arrays, indexer and schedule CAPTURED from the real solver: Float model == "
+        "implementation's solves array, and in exact arithmetic flat model == abstract Hines recursion, schedule well-formed, result "
+        "satisfies every row of the captured system. A regression corpus (F1, N3, N7 morphologies, non-topological labelings, "
+        "networks of unequal depth) runs first in every tier.",
    note=TRUST + "Not proved: floating-point rounding (measured as backward error); tridiax.stone and jax spsolve (exercised); the "
-        "level-wise padded-array schedule of the jaxley backends and the global equality 'assembled matrix = row-scaled SpecSys' "
-        "(checked exactly, residual 0 in rational arithmetic, on every generated case). Fixed: F1, N7."),
+        "composition of the solver steps over an arbitrary level schedule and the global equality 'assembled matrix = row-scaled "
+        "SpecSys' (both checked exactly, in rational arithmetic, on every generated case). Fixed: F1, N3, N7."),
  "C02": dict(cat="proof", ref="DESIGN.md §4 C02",
    technique="Lean 4: charge balance, maximum/minimum principle, reciprocity for symmetric cable systems on any finite node set; predicates evaluated on implementation outputs",
    text="Theorems for every admissible symmetric system: total charge balance, no overshoot for every dt>0 (max/min principle incl. "
